@@ -301,6 +301,48 @@ pub fn run(rep: &'static Report) {
             rep.nontrivial(format!("public-{}-{}-{}", si, ri, l).as_bytes());
         }
     }
+    {
+        let nseq = 48usize;
+        let mut seen: Vec<(usize, [u8; 32], [u8; 32], Vec<u8>)> = vec![]; // (recipient, payload key, file key, chunk region)
+        for i in 0..nseq {
+            rep.eval(1);
+            let ri = [2usize, 3, 0, 1][i % 4];
+            let si = [0usize, 1][i % 2];
+            let pl = plaintext(seed ^ 0x5d ^ i as u64, 20 + i);
+            let enc = Subject::KeyEnc { s: hx(&k[si].sk), s_pub: hx(&k[si].pk), r_pub: hx(&k[ri].pk), e: String::new(), payload: String::new() };
+            let (eres, file) = run_plain(&enc, &pl);
+            if !eres.is_ok() {
+                rep.violation("sequence/encrypt-error", json!({"kind":"sequence","i":i}), eres.brief());
+                break;
+            }
+            let kf = match r::read_key_file(&k[ri].sk, &file) {
+                Ok(kf) => kf,
+                Err(e) => {
+                    rep.violation("sequence/not-conforming", json!({"kind":"sequence","i":i}), format!("{:?}", e));
+                    break;
+                }
+            };
+            // every earlier recipient tries what it learned (payload key / file key of its own file) on this file
+            for (j, (rj, pk_j, fk_j, _)) in seen.iter().enumerate() {
+                if *rj == ri {
+                    continue;
+                }
+                let x_h = r::noise_x_read(&r::KEY_MAGIC, &k[ri].sk, &k[ri].pk, &file[4..132]).unwrap().h;
+                let readable = kf.payload_key == *pk_j || kf.file_key == *fk_j || r::read_chunks(fk_j, &[], &file[132..], 65536).is_ok() || r::read_chunks(&r::file_key_from_handshake(pk_j, &x_h), &[], &file[132..], 65536).is_ok();
+                if readable {
+                    rep.violation(
+                        "sequence/readable-by-another-recipient",
+                        json!({"kind":"sequence","i":i,"j":j}),
+                        format!("file {} of a sequence of auto-keyed encryptions in one thread (addressed to {}) can be read by the recipient of file {} ({}) with the keys learned from its own file", i, k[ri].name, j, k[*rj].name),
+                    );
+                    break;
+                }
+            }
+            seen.push((ri, kf.payload_key, kf.file_key, file[132..].to_vec()));
+        }
+        rep.extra("auto_keyed_sequence_length", json!(nseq));
+        rep.nontrivial(b"auto-keyed-sequence");
+    }
     rep.extra("special_points", json!(sp.len()));
     rep.extra("small_order_encodings", json!(small));
     rep.sample(json!({"kind":"special-recipient","name":"small-order-5-bit255","expect":"key_encrypt returns Err and writes nothing"}));
